@@ -1092,6 +1092,7 @@ func parserStringTable(p *Prog, info *types.Info, fd *ast.FuncDecl, s *ast.Switc
 	syn := p.Pkg("syntax")
 	sinfo := syn.TypesInfo
 	var parserSet map[string]bool
+	wholeWord := false
 	for _, pfd := range p.AllFuncDecls("syntax") {
 		ast.Inspect(pfd.Body, func(n ast.Node) bool {
 			is, ok := n.(*ast.IfStmt)
@@ -1128,6 +1129,7 @@ func parserStringTable(p *Prog, info *types.Info, fd *ast.FuncDecl, s *ast.Switc
 				}
 				if hasErrDefault && len(set) > 0 {
 					parserSet = set
+					wholeWord = wholeWordChecked(sinfo, pfd, kObj)
 				}
 			}
 			return true
@@ -1135,6 +1137,9 @@ func parserStringTable(p *Prog, info *types.Info, fd *ast.FuncDecl, s *ast.Switc
 	}
 	if parserSet == nil {
 		return "no validation switch for " + kObj.Name() + " found in the parser", false, true
+	}
+	if !wholeWord {
+		return "the parser's validation switch looks at the token in hand only; nothing in that function refuses a word with further parts (no `w.Lit() == \"\"` test under " + kObj.Name() + " that reports an error), so the expanded word can be any string", false, true
 	}
 	here := map[string]bool{}
 	vals, _ := constCases(info, s)
@@ -2407,6 +2412,8 @@ func checkShiftsAndDivisions(p *Prog, r *Result, pkg *packages.Package, rel stri
 }
 
 var c28Controls = []Control{
+	{Name: "at-operator-operand-checked-by-its-first-literal-only", Rule: "R28b", WantKey: "paramExp#panic", File: "syntax/parser.go",
+		Mutate: ctlReplaceAnywhere("\tif op == OtherParamOps && w != nil && w.Lit() == \"\" {\n", "\tif false {\n")},
 	{Name: "unescape-reads-past-the-end", Rule: "R28j", WantKey: "wordField#s[i + 1]", File: "expand/expand.go",
 		Mutate: ctlReplaceAnywhere("if b == '\\\\' && i+1 < len(s) {\n\t\t\t\t\t\tswitch s[i+1] {", "if b == '\\\\' {\n\t\t\t\t\t\tswitch s[i+1] {")},
 	{Name: "append-switch-forgets-nameref", Rule: "R28b", WantKey: "assignVal#panic", File: "interp/vars.go",
@@ -2792,4 +2799,43 @@ var c28IndexExceptions = map[string]string{
 	"interp.(Runner).cmd#cm.Args": "reached only when the expanded fields are non-empty, which needs at least one word in cm.Args",
 	"interp.(flagParser).flag#p.remaining": "flag() is only called in `for fp.more()` loops; more() returns true only with a pending flag or a non-empty remaining list",
 	"interp.runScriptENOEXEC#args": "the arguments of an ExecHandlerFunc are never empty (documented)",
+}
+
+// wholeWordChecked: in the parser function that validates the operand of operator k, an if statement whose condition
+// tests the operator against k and compares the result of a Lit() call with the empty string has a non-empty body — the
+// word that is stored is refused unless it is one literal, which is what the validation switch looked at.
+func wholeWordChecked(info *types.Info, fd *ast.FuncDecl, k types.Object) bool {
+	found := false
+	ast.Inspect(fd.Body, func(n ast.Node) bool {
+		is, ok := n.(*ast.IfStmt)
+		if !ok || len(is.Body.List) == 0 {
+			return true
+		}
+		hasK, hasLit := false, false
+		for _, cj := range conjuncts(is.Cond) {
+			be, ok := ast.Unparen(cj).(*ast.BinaryExpr)
+			if !ok || be.Op != token.EQL {
+				continue
+			}
+			if id, ok := ast.Unparen(be.Y).(*ast.Ident); ok && info.ObjectOf(id) == k {
+				hasK = true
+			}
+			for _, pair := range [][2]ast.Expr{{be.X, be.Y}, {be.Y, be.X}} {
+				c, ok := ast.Unparen(pair[0]).(*ast.CallExpr)
+				if !ok {
+					continue
+				}
+				if se, ok := ast.Unparen(c.Fun).(*ast.SelectorExpr); ok && se.Sel.Name == "Lit" {
+					if tv, ok := info.Types[pair[1]]; ok && tv.Value != nil && tv.Value.ExactString() == `""` {
+						hasLit = true
+					}
+				}
+			}
+		}
+		if hasK && hasLit {
+			found = true
+		}
+		return true
+	})
+	return found
 }
